@@ -1184,7 +1184,18 @@ def _sf_fs_fun(name, nstr):
     return f
 
 
+def _sf_same_value(ex, ctx, st, e):
+    """same_value(a, b): a and b are the same Python value in the sense of the value sort (structural identity of
+    boxed values: same kind and same payload) -- stronger than `==` (which also equates 1 and True)."""
+    a = ex.eval(ctx, st, e.args[0])
+    b = ex.eval(ctx, st, e.args[1])
+    if a.k == "py" or b.k == "py":
+        raise Unsupported("same_value on a concrete python object")
+    return mk_bool(simp(box(a) == box(b)))
+
+
 SPEC_FORMS = {
+    "same_value": _sf_same_value,
     "fs_trace": _sf_fs_trace,
     "fs_text": _sf_fs_fun("fs_text", 1),
     "fs_readable": _sf_fs_fun("fs_readable", 1),
